@@ -152,6 +152,10 @@ func (m *multiExecutor) groupParsersByTableName(parseContext *types.ParseContext
 		}
 
 		if stmtList, ok := tableParsers[tableName]; ok {
+			if stmtList.ExecutorType != parser.ExecutorType {
+				// the per-kind executors below read only their own statement kind from every parser of the group
+				return nil, fmt.Errorf("not support multi sql mixing statement kinds on table %s: %s", tableName, m.execContext.Query)
+			}
 			sts := append(stmtList.MultiStmt, &tempParser)
 			tableParsers[tableName].MultiStmt = sts
 		} else {
